@@ -65,8 +65,26 @@ ForItem(f, key) ==
          [] key.v = "parentloop" -> f.parent
          [] OTHER -> Undef
 
+\* tablerowloop drop (optional_tags.md)
+RowItem(f, key) ==
+  IF key.t # "str" THEN Undef
+  ELSE CASE key.v = "index"   -> IntV(f.index0 + 1)
+         [] key.v = "index0"  -> IntV(f.index0)
+         [] key.v = "rindex"  -> IntV(f.length - f.index0)
+         [] key.v = "rindex0" -> IntV(f.length - f.index0 - 1)
+         [] key.v = "first"   -> Bool(f.index0 = 0)
+         [] key.v = "last"    -> Bool(f.index0 = f.length - 1)
+         [] key.v = "length"  -> IntV(f.length)
+         [] key.v = "col"     -> IntV(f.col)
+         [] key.v = "col0"    -> IntV(f.col - 1)
+         [] key.v = "col_first" -> Bool(f.col = 1)
+         [] key.v = "col_last"  -> Bool(f.col = f.ncols)
+         [] key.v = "row"     -> IntV(f.row)
+         [] OTHER -> Undef
+
 \* `block.super` is resolved by EvalPath (it renders the parent definition)
-GetItem(obj, key) == IF obj.t = "forloop" THEN ForItem(obj, key) ELSE Item(obj, key)
+GetItem(obj, key) == IF obj.t = "forloop" THEN ForItem(obj, key)
+                     ELSE IF obj.t = "trloop" THEN RowItem(obj, key) ELSE Item(obj, key)
 
 -----------------------------------------------------------------------------
 (* undefined policies (undefined.py).  Under "strict" every use of an       *)
@@ -322,7 +340,35 @@ IsBlankNode(n) ==
 Fail(st, cls) == [st EXCEPT !.err = cls]
 
 
-Write(st, s)  == [st EXCEPT !.out = @ \o s]
+\* Resource consumption of the (unlimited) render, measured for C06 - DESIGN.md section 6:
+\*   m.peak   largest number of UTF-8 bytes ever held along the active chain of output
+\*            buffers (a capture buffer starts counting where its parent stands; text
+\*            written into a suppressed blank block is discarded and not counted)
+\*   m.prod   largest product of loop lengths along a nest of loop-like constructs
+\*   m.iters  largest number of times one loop body ran within one outermost loop
+MaxOf(a, b) == IF a >= b THEN a ELSE b
+RECURSIVE ProdOf(_), SeqMax(_)
+ProdOf(ns) == IF ns = <<>> THEN 1 ELSE ns[1] * ProdOf(Tail(ns))
+SeqMax(ns) == IF ns = <<>> THEN 0 ELSE MaxOf(ns[1], SeqMax(Tail(ns)))
+Write(st, s)  ==
+  LET o2 == st.out \o s IN
+  [st EXCEPT !.out = o2, !.m.peak = IF st.null THEN @ ELSE MaxOf(@, st.base + Bytes(o2))]
+\* a fresh buffer stacked on the current one (capture, block.super, isolated contexts)
+Fresh(st) == [st EXCEPT !.out = "", !.base = IF st.null THEN 0 ELSE st.base + Bytes(st.out), !.null = FALSE]
+\* back in the enclosing buffer
+Unstack(s1, st) == [s1 EXCEPT !.out = st.out, !.base = st.base, !.null = st.null]
+
+\* entering / leaving a loop-like construct of `len` iterations; counting one body run
+LoopEnter(st, len) ==
+  LET lens == Append(st.lens, len) IN
+  [st EXCEPT !.lens = lens,
+             !.m.prod = MaxOf(@, ProdOf(lens)),
+             !.lpcnt = IF Len(@) < Len(lens) THEN Append(@, 0) ELSE @]
+LoopTick(st) == [st EXCEPT !.lpcnt = [@ EXCEPT ![Len(st.lens)] = @ + 1]]
+LoopLeave(s1, st) ==
+  IF st.lens = <<>>
+  THEN [s1 EXCEPT !.lens = st.lens, !.m.iters = MaxOf(@, SeqMax(s1.lpcnt)), !.lpcnt = <<>>]
+  ELSE [s1 EXCEPT !.lens = st.lens]
 
 \* text written for a value at an output site
 OutText(v, st) == IF st.cfg.autoescape THEN OutStrEsc(v) ELSE OutStr(v)
@@ -330,14 +376,14 @@ OutText(v, st) == IF st.cfg.autoescape THEN OutStrEsc(v) ELSE OutStr(v)
 SeqGet(pairs, k, dflt) == IF HHas(pairs, k) THEN HGet(pairs, k) ELSE dflt
 
 \* the `name` of a forloop / the stopindex key: "<identifier>-<iterable text>"
-RECURSIVE ExecNode(_, _), ExecFor(_, _, _, _, _), ExecWhens(_, _, _, _, _), ExecElifs(_, _, _),
+RECURSIVE ExecNode(_, _), ExecRow(_, _, _, _, _), ExecFor(_, _, _, _, _), ExecWhens(_, _, _, _, _), ExecElifs(_, _, _),
           ExecTemplate(_, _), IncludeIter(_, _, _, _, _, _), RenderIterT(_, _, _, _, _, _, _, _),
           ExecInclude(_, _), ExecRender(_, _), ExecCall(_, _), ExecExtends(_, _), ExecBlockTag(_, _)
 
 \* a block body: suppressed (executed, output discarded) when blank
 ExecBlock(body, st) ==
   IF st.cfg.suppress /\ IsBlankSeq(body)
-  THEN LET s2 == Exec(body, st) IN [s2 EXCEPT !.out = st.out]
+  THEN LET s2 == Exec(body, [st EXCEPT !.null = TRUE]) IN [s2 EXCEPT !.out = st.out, !.null = st.null]
   ELSE Exec(body, st)
 
 Exec(nodes, st) ==
@@ -375,13 +421,29 @@ ExecFor(n, items, i, f, st) ==
   IF i > Len(items) \/ st.err # "" THEN st
   ELSE LET fl == [f EXCEPT !.index0 = i - 1]
            sc == <<<<"forloop", fl>>, <<n.n, items[i]>>>>
-           s1 == [st EXCEPT !.scopes = Append(st.scopes, sc),
-                            !.loops = [@ EXCEPT ![Len(@)] = fl]]
+           s1 == LoopTick([st EXCEPT !.scopes = Append(st.scopes, sc),
+                                     !.loops = [@ EXCEPT ![Len(@)] = fl]])
            s2 == ExecBlock(n.body, s1)
            s3 == [s2 EXCEPT !.scopes = st.scopes, !.intr = ""]
        IN IF s2.err # "" THEN s3
           ELSE IF s2.intr = "break" THEN s3
           ELSE ExecFor(n, items, i + 1, f, s3)
+
+\* tablerow: one <td> per item, a new <tr> after every `ncols` items
+ExecRow(n, items, i, f, st) ==
+  IF i > Len(items) \/ st.err # "" THEN st
+  ELSE LET col == IF f.col = f.ncols THEN 1 ELSE f.col + 1
+           row == IF f.col = f.ncols THEN f.row + 1 ELSE f.row
+           fl == [f EXCEPT !.index0 = i - 1, !.col = col, !.row = row]
+           sc == <<<<"tablerowloop", fl>>, <<n.n, items[i]>>>>
+           s1 == LoopTick(Write([st EXCEPT !.scopes = Append(st.scopes, sc)], "<td class=\"col" \o ToString(col) \o "\">"))
+           s2 == ExecBlock(n.body, s1)
+           brk == s2.intr = "break"
+           s3 == IF s2.err # "" THEN s2 ELSE Write([s2 EXCEPT !.intr = ""], "</td>")
+           s4 == IF s3.err = "" /\ col = f.ncols /\ i < f.length
+                 THEN Write(s3, "</tr>\n<tr class=\"row" \o ToString(row + 1) \o "\">") ELSE s3
+           s5 == [s4 EXCEPT !.scopes = st.scopes]
+       IN IF s5.err # "" \/ brk THEN s5 ELSE ExecRow(n, items, i + 1, fl, s5)
 
 ExecNode(n, st) ==
   CASE n.k = "text" -> Write(st, TrimText(n.v, n.lm, n.rm, st.cfg))
@@ -399,9 +461,9 @@ ExecNode(n, st) ==
          LET v == Eval(n.e, st) IN
          IF IsErr(v) THEN Fail(st, v.cls) ELSE [st EXCEPT !.locals = HPut(@, n.n, v)]
     [] n.k = "capture" ->
-         LET s1 == ExecBlock(n.body, [st EXCEPT !.out = ""]) IN
-         IF s1.err # "" THEN [s1 EXCEPT !.out = st.out]
-         ELSE [s1 EXCEPT !.out = st.out,
+         LET s1 == ExecBlock(n.body, Fresh(st)) IN
+         IF s1.err # "" THEN Unstack(s1, st)
+         ELSE [Unstack(s1, st) EXCEPT
                          !.locals = HPut(@, n.n, IF st.cfg.autoescape THEN Safe(s1.out) ELSE Str(s1.out))]
     [] n.k = "if" ->
          ExecElifs(<<[c |-> n.c, body |-> n.body]>> \o n.elifs, n.else, st)
@@ -448,8 +510,37 @@ ExecNode(n, st) ==
                      f     == [t |-> "forloop", name |-> key, length |-> len, index0 |-> 0, parent |-> parent]
                  IN IF len = 0
                     THEN (IF n.else.has THEN ExecBlock(n.else.body, s0) ELSE s0)
-                    ELSE LET s1 == ExecFor(n, items, 1, f, [s0 EXCEPT !.loops = Append(@, f)])
-                         IN [s1 EXCEPT !.loops = st.loops]
+                    ELSE LET s1 == ExecFor(n, items, 1, f, LoopEnter([s0 EXCEPT !.loops = Append(@, f)], len))
+                         IN LoopLeave([s1 EXCEPT !.loops = st.loops], st)
+    [] n.k = "tablerow" ->
+         LET itv == Eval(n.it, st) IN
+         IF IsErr(itv) THEN Fail(st, itv.cls)
+         ELSE IF UndefErr(itv, st, "iter") THEN Fail(st, "UndefinedError")
+         ELSE IF itv.t = "str" THEN Fail(st, "UNSPEC")
+         ELSE LET all == IterSeq(itv) IN
+         IF ~all.ok THEN Fail(st, "LiquidTypeError")
+         ELSE LET lim == IF n.limit.has THEN Eval(n.limit.e, st) ELSE Nil
+                  off == IF n.offset.has /\ ~n.offset.cont THEN Eval(n.offset.e, st) ELSE Nil
+                  cv  == IF n.cols.has THEN Eval(n.cols.e, st) ELSE Nil
+              IN IF IsErr(lim) THEN Fail(st, lim.cls)
+                 ELSE IF IsErr(off) THEN Fail(st, off.cls)
+                 ELSE IF IsErr(cv) THEN Fail(st, cv.cls)
+                 ELSE IF (n.limit.has /\ lim.t # "int") \/ (n.offset.has /\ ~n.offset.cont /\ off.t # "int") \/ (n.cols.has /\ cv.t # "int")
+                      THEN Fail(st, "UNSPEC")
+                 ELSE IF (n.limit.has /\ lim.n < 0) \/ (n.offset.has /\ ~n.offset.cont /\ off.n < 0) \/ (n.cols.has /\ cv.n <= 0)
+                      THEN Fail(st, "UNSPEC")
+                 ELSE
+                 LET key   == n.n \o "-" \o n.itsrc
+                     total == Len(all.v)
+                     o     == IF ~n.offset.has THEN 0 ELSE IF n.offset.cont THEN SeqGet(st.stop, key, 0) ELSE off.n
+                     avail == IF total - o > 0 THEN total - o ELSE 0
+                     len   == IF n.limit.has /\ lim.n < avail THEN lim.n ELSE avail
+                     items == SubSeq(all.v, o + 1, o + len)
+                     ncols == IF n.cols.has THEN cv.n ELSE len
+                     s0    == Write([st EXCEPT !.stop = HPut(@, key, o + len)], "<tr class=\"row1\">\n")
+                     f     == [t |-> "trloop", length |-> len, index0 |-> 0, col |-> 0, row |-> 1, ncols |-> ncols]
+                     s1    == IF len = 0 THEN s0 ELSE LoopLeave(ExecRow(n, items, 1, f, LoopEnter(s0, len)), s0)
+                 IN IF s1.err # "" THEN s1 ELSE Write(s1, "</tr>\n")
     [] n.k \in {"break", "continue"} -> [st EXCEPT !.intr = n.k]
     [] n.k = "incr" ->
          LET c == IF HHas(st.counters, n.n) THEN HGet(st.counters, n.n).n ELSE 0 IN
@@ -534,11 +625,11 @@ EvalKwargs(kwargs, st) ==
 IncludeIter(nodes, key, items, i, nsIdx, st) ==
   IF i > Len(items) \/ st.err # "" \/ st.intr # "" THEN st
   ELSE LET s1 == [st EXCEPT !.scopes = [@ EXCEPT ![nsIdx] = HPut(@, key, items[i])]]
-       IN IncludeIter(nodes, key, items, i + 1, nsIdx, ExecTemplate(nodes, s1))
+       IN IncludeIter(nodes, key, items, i + 1, nsIdx, ExecTemplate(nodes, LoopTick(s1)))
 
 \* a context that sees only `ns` and the global layers (RenderContext.copy)
 Isolated(st, ns, disabled) ==
-  [st EXCEPT !.out = "", !.locals = <<>>, !.scopes = <<>>, !.layers = <<ns>> \o st.layers,
+  [Fresh(st) EXCEPT !.locals = <<>>, !.scopes = <<>>, !.layers = <<ns>> \o st.layers,
              !.counters = <<>>, !.cycles = <<>>, !.stop = <<>>, !.loops = <<>>, !.macros = <<>>,
              !.disabled = disabled, !.cdepth = st.cdepth + 1, !.intr = "", !.stacks = <<>>]
 
@@ -546,7 +637,7 @@ Isolated(st, ns, disabled) ==
 Back(st, s2) ==
   IF s2.err # "" THEN Fail(st, s2.err)
   ELSE IF s2.intr # "" THEN Fail(st, "LiquidSyntaxError")       \* break/continue cannot leave a render
-  ELSE Write(st, s2.out)
+  ELSE Write([st EXCEPT !.m = s2.m, !.lpcnt = s2.lpcnt], s2.out)
 
 \* render ... for: every item renders the partial in a context of its own
 RenderIter(nodes, key, items, i, ns, disabled, st) == RenderIterT(nodes, key, items, i, ns, disabled, st, st.tname)
@@ -554,7 +645,7 @@ RenderIterT(nodes, key, items, i, ns, disabled, st, tn) ==
   IF i > Len(items) \/ st.err # "" THEN st
   ELSE LET fl == [t |-> "forloop", name |-> key, length |-> Len(items), index0 |-> i - 1, parent |-> Undef]
            ns2 == HPut(HPut(ns, "forloop", fl), key, items[i])
-           s2 == ExecTemplate(nodes, [Isolated(st, ns2, disabled) EXCEPT !.tname = tn])
+           s2 == ExecTemplate(nodes, [Isolated(LoopTick(st), ns2, disabled) EXCEPT !.tname = tn])
        IN RenderIterT(nodes, key, items, i + 1, ns, disabled, Back(st, s2), tn)
 
 ExecInclude(n, st) ==
@@ -575,7 +666,9 @@ ExecInclude(n, st) ==
                    ELSE LET val == Eval(n.var, s0) IN
                         IF IsErr(val) THEN Fail(s0, val.cls)
                         ELSE IF val.t \in {"arr", "range"}
-                        THEN IncludeIter(nodes, BindKey(n, nm.v), IF val.t = "arr" THEN val.v ELSE RangeSeq(val), 1, idx, s0)
+                        THEN LET its == IF val.t = "arr" THEN val.v ELSE RangeSeq(val) IN
+                             IF its = <<>> THEN s0
+                             ELSE LoopLeave(IncludeIter(nodes, BindKey(n, nm.v), its, 1, idx, LoopEnter(s0, Len(its))), s0)
                         ELSE ExecTemplate(nodes, [s0 EXCEPT !.scopes = [@ EXCEPT ![idx] = HPut(@, BindKey(n, nm.v), val)]])
        IN [done EXCEPT !.scopes = st.scopes, !.tname = st.tname]
 
@@ -591,7 +684,9 @@ ExecRender(n, st) ==
   ELSE LET val == Eval(n.var, st) IN
        IF IsErr(val) THEN Fail(st, val.cls)
        ELSE IF n.mode = "for" /\ val.t \in {"arr", "range"}
-       THEN RenderIterT(nodes, BindKey(n, n.name.v), IF val.t = "arr" THEN val.v ELSE RangeSeq(val), 1, ns.h, {"include"}, st, n.name.v)
+       THEN LET its == IF val.t = "arr" THEN val.v ELSE RangeSeq(val) IN
+            IF its = <<>> THEN st
+            ELSE LoopLeave(RenderIterT(nodes, BindKey(n, n.name.v), its, 1, ns.h, {"include"}, LoopEnter(st, Len(its)), n.name.v), st)
        ELSE Back(st, ExecTemplate(nodes, [Isolated(st, HPut(ns.h, BindKey(n, n.name.v), val), {"include"}) EXCEPT !.tname = n.name.v]))
 
 \* bind call arguments to macro parameters (CallNode.macro_args): positional
@@ -620,7 +715,7 @@ ExecCall(n, st) ==
   ELSE LET ns == <<<<"args", extra>>, <<"kwargs", xkwv>>>> \o [i \in 1..np |-> <<m.params[i].n, pvals[i]>>]
            s2 == ExecBlock(m.body, Isolated(st, ns, {"include", "block"}))
        IN IF s2.err # "" THEN Fail(st, s2.err)
-          ELSE [Write(st, s2.out) EXCEPT !.intr = s2.intr]
+          ELSE [Write([st EXCEPT !.m = s2.m, !.lpcnt = s2.lpcnt], s2.out) EXCEPT !.intr = s2.intr]
 
 -----------------------------------------------------------------------------
 (* template inheritance (tag_reference.md: extends / block; extends_tag.py) *)
@@ -673,7 +768,7 @@ SuperText(drop, st, fuel) ==
   IF drop.level = 0 \/ drop.level >= Len(stack) \/ fuel = 0 THEN Undef
   ELSE LET def == stack[drop.level + 1]
            sc == <<<<"block", BlockDrop(drop.name, drop.level + 1)>>>>
-           s1 == ExecBlock(def.body, [st EXCEPT !.out = "", !.scopes = Append(@, sc)])
+           s1 == ExecBlock(def.body, [Fresh(st) EXCEPT !.scopes = Append(@, sc)])
        IN IF s1.err # "" THEN Err(s1.err)
           ELSE IF st.cfg.autoescape THEN Safe(s1.out) ELSE Str(s1.out)
 
@@ -698,7 +793,8 @@ InitState(tpls, data, cfg) ==
   [out |-> "", locals |-> <<>>, scopes |-> <<>>, layers |-> data, counters |-> <<>>,
    cycles |-> <<>>, stop |-> <<>>, loops |-> <<>>, err |-> "", intr |-> "",
    cfg |-> cfg, tpls |-> tpls, macros |-> <<>>, disabled |-> {}, cdepth |-> 0,
-   stacks |-> <<>>, tname |-> ""]
+   stacks |-> <<>>, tname |-> "", base |-> 0, null |-> FALSE, lens |-> <<>>, lpcnt |-> <<>>,
+   m |-> [peak |-> 0, prod |-> 0, iters |-> 0]]
 
 \* data: sequence of global layers in priority order, each an ordered hash
 Render(tpls, main, data, cfg) ==
@@ -707,4 +803,10 @@ Render(tpls, main, data, cfg) ==
   IF s.err # "" THEN [ok |-> FALSE, err |-> s.err, out |-> ""]
   ELSE IF s.intr # "" THEN [ok |-> FALSE, err |-> "LiquidSyntaxError", out |-> ""]
   ELSE [ok |-> TRUE, err |-> "", out |-> s.out]
+
+\* the same with the consumption measures of the run (C06)
+Measure(tpls, main, data, cfg) ==
+  LET s == ExecTemplate(HGet(tpls, main), [InitState(tpls, data, cfg) EXCEPT !.tname = main]) IN
+  [err |-> IF s.err # "" THEN s.err ELSE IF s.intr # "" THEN "LiquidSyntaxError" ELSE "",
+   out |-> s.out, outbytes |-> Bytes(s.out), peak |-> s.m.peak, prod |-> s.m.prod, iters |-> s.m.iters]
 =============================================================================
